@@ -104,6 +104,8 @@ struct ModCtx {
     has_memory: bool,
     mem_bytes:  u32,
     table_len:  u32,
+    /// function index stored in each table slot (after applying the element segments in order)
+    table_slots: Vec<Option<u32>>,
     cfg:        GenConfig,
 }
 
@@ -475,7 +477,7 @@ impl<'a, 'u, 'd> BodyGen<'a, 'u, 'd> {
         self.mark_unreachable();
     }
 
-    fn push_args_and_call(&mut self, callee: u32, indirect_ty: Option<u32>) {
+    fn push_args_and_call(&mut self, callee: u32, indirect_ty: Option<u32>, exact_slot: Option<u32>) {
         let ty = match indirect_ty {
             Some(t) => self.m.types[t as usize].clone(),
             None => self.m.types[self.m.func_types[callee as usize] as usize].clone(),
@@ -488,7 +490,8 @@ impl<'a, 'u, 'd> BodyGen<'a, 'u, 'd> {
                     self.ensure(&ty.params);
                     // table index: in range mostly, sometimes out of range
                     let tl = self.m.table_len;
-                    let idx = match g::byte(self.u) % 6 {
+                    let idx = match if exact_slot.is_some() { 2 } else { g::byte(self.u) % 6 } {
+                        2 if exact_slot.is_some() => exact_slot.unwrap(),
                         0 => tl,
                         1 => g::boundary_u32(self.u),
                         _ => {
@@ -522,8 +525,29 @@ impl<'a, 'u, 'd> BodyGen<'a, 'u, 'd> {
             return;
         }
         let indirect = self.m.table_len > 0 && self.m.cfg.allow_table && g::ratio(self.u, 1, 4);
+        // a populated table slot together with the exact type of the function in it
+        let filled: Vec<(u32, u32)> = self
+            .m
+            .table_slots
+            .iter()
+            .enumerate()
+            .filter_map(|(i, f)| f.map(|f| (i as u32, f)))
+            .collect();
+        let mut exact_slot: Option<u32> = None;
         let (callee, ity) = if indirect {
-            (0, Some(g::idx(self.u, self.m.types.len()) as u32))
+            if !filled.is_empty() && g::ratio(self.u, 2, 3) {
+                // prefer slots holding host imports when host calls are wanted
+                let hosts: Vec<(u32, u32)> = filled.iter().copied().filter(|(_, f)| (*f as usize) < self.m.nimports).collect();
+                let (slot, f) = if !hosts.is_empty() && g::byte(self.u) < self.m.cfg.host_call_bias {
+                    *g::choose(self.u, &hosts)
+                } else {
+                    *g::choose(self.u, &filled)
+                };
+                exact_slot = Some(slot);
+                (0, Some(self.m.func_types[f as usize]))
+            } else {
+                (0, Some(g::idx(self.u, self.m.types.len()) as u32))
+            }
         } else if self.m.nimports > 0 && g::byte(self.u) < self.m.cfg.host_call_bias {
             (g::idx(self.u, self.m.nimports) as u32, None)
         } else {
@@ -547,7 +571,7 @@ impl<'a, 'u, 'd> BodyGen<'a, 'u, 'd> {
             let h = self.stack.len();
             self.ctrl.push(Frame { kind: Kind::If, label_type: bt, end_type: bt, height: h, unreachable: false });
             self.dec_fuel(f);
-            self.push_args_and_call(callee, ity);
+            self.push_args_and_call(callee, ity, exact_slot);
             if let Some(r) = ty.result {
                 self.stack.truncate(h);
                 self.emit(Op::Else);
@@ -564,7 +588,7 @@ impl<'a, 'u, 'd> BodyGen<'a, 'u, 'd> {
                 self.push(r);
             }
         } else {
-            self.push_args_and_call(callee, ity);
+            self.push_args_and_call(callee, ity, exact_slot);
         }
     }
 
@@ -893,12 +917,12 @@ pub fn gen_module(u: &mut Unstructured, cfg: &GenConfig) -> Generated {
             6 => 2.min(cfg.max_init_pages),
             _ => g::range_u64(u, 0, cfg.max_init_pages as u64) as u32,
         };
-        let max = match g::byte(u) % 6 {
-            0 | 1 => None,
-            2 => Some(min),
-            3 => Some(min + 1),
-            4 => Some(min + 3),
-            _ => Some(65536),
+        let max = match g::byte(u) % 16 {
+            0 => None,
+            1 => Some(65536),
+            2..=5 => Some(min),
+            6..=10 => Some(min + 1),
+            _ => Some(min + 3),
         };
         m.memory = Some(Limits { min, max });
     }
@@ -952,12 +976,18 @@ pub fn gen_module(u: &mut Unstructured, cfg: &GenConfig) -> Generated {
     if let Some(mem) = m.memory {
         let bytes = mem.min as u64 * 65536;
         if bytes > 0 {
-            let nd = g::range_usize(u, 0, 2);
+            let nd = g::range_usize(u, 0, 3);
             for _ in 0..nd {
                 let len = g::range_usize(u, 0, 24);
-                let off = match g::byte(u) % 4 {
-                    0 => 0,
-                    1 => bytes - len as u64,
+                let prev_off = m.datas.last().and_then(|d: &Data| match d.offset {
+                    ConstExpr::I32(o) => Some(o as u32 as u64),
+                    _ => None,
+                });
+                let off = match (g::byte(u) % 6, prev_off) {
+                    (0, _) => 0,
+                    (1, _) => bytes - len as u64,
+                    // overlap the previous segment
+                    (2 | 3, Some(p)) => (p + g::range_u64(u, 0, 3)).min(bytes - len as u64),
                     _ => g::range_u64(u, 0, (bytes - len as u64).min(300)),
                 };
                 let mut offset = ConstExpr::I32(off as u32 as i32);
@@ -970,11 +1000,23 @@ pub fn gen_module(u: &mut Unstructured, cfg: &GenConfig) -> Generated {
                         offset = ConstExpr::GlobalGet(gi as u32);
                     }
                 }
-                m.datas.push(Data { offset, bytes: g::bytes(u, len) });
+                let content = if g::ratio(u, 1, 4) { vec![0u8; len] } else { g::bytes(u, len).iter().map(|b| b | 1).collect() };
+                m.datas.push(Data { offset, bytes: content });
+            }
+        }
+    }
+    let mut table_slots: Vec<Option<u32>> = vec![None; table_len as usize];
+    for e in &m.elems {
+        if let ConstExpr::I32(off) = e.offset {
+            for (i, f) in e.funcs.iter().enumerate() {
+                if let Some(s) = table_slots.get_mut(off as usize + i) {
+                    *s = Some(*f);
+                }
             }
         }
     }
     let ctx = ModCtx {
+        table_slots,
         types: m.types.clone(),
         func_types,
         nimports: m.imports.len(),
